@@ -1,5 +1,5 @@
 CONSTANTS LOCSYMSIGHT = 3
-          MaxLen = 4 FreeLen = 0 MaxDepth = 2 Mode = "scope" CaseModes = {FALSE} EveryState = TRUE
+          MaxLen = 3 FreeLen = 0 MaxDepth = 2 Mode = "scope" CaseModes = {TRUE, FALSE} EveryState = TRUE
 INIT Init
 NEXT Next
 INVARIANT Dump
